@@ -210,6 +210,10 @@ def sort_rules(r, R):
                 key = "name" if fields == {"name"} else "position" if fields == {"position"} else "+".join(sorted(fields)) or "?"
             if extra:
                 key = "%s transformed by %s" % (key, ",".join(x.split("::")[-1] for x in extra))
+            from .pm import guards_of, guard_s
+            extra_g = [g for g in guards_of(b, cs.bb) if not (g[0] == "enum" and g[1] == "options::SortBy")]
+            if extra_g:
+                key = "%s, but only when %s" % (key, " && ".join(guard_s(g) for g in extra_g)[:80])
             for a in alts or {"<unconditional>"}:
                 seen[a] = key
             r.ob("R9.2.sort-key", "%s: %s sorted under %s" % (fn, what, "/".join(sorted(alts)) or "no option test"),
